@@ -376,6 +376,7 @@ func (in *psInterp) paint(kind string) {
 		total := in.toMM.mul(g.ctm)
 		it := item{role: "stroke", paint: p, src: src + " {" + par.String() + "}"}
 		it.reg = region{key: key + "|" + g.ctm.String() + "|stroke|" + par.key(), pls: mapPolys(strokeOutline(user, par, false), total)}
+		it.widthMM = effectiveWidth(total, par.width)
 		if len(par.dashes) > 0 && hasClosedSubpath(user) {
 			it.alt = &region{key: key + "|" + g.ctm.String() + "|stroke-joined|" + par.key(), pls: mapPolys(strokeOutline(user, par, true), total)}
 		}
